@@ -77,6 +77,7 @@ def run(res, programs, tier):
     res.rule("R05.4a", "float Repr struct literals only in the reviewed normalising functions (side conditions checked); .significand mutated in place only by sign changes / reviewed sites")
     res.rule("R05.4b", "every in-place write to .exponent of an existing float Repr is on the not-zero edge of a test of the same value (infinities are zero significand + non-zero exponent)")
     res.rule("R05.6", "FBig struct literals only in reviewed constructors; deserialisers must validate digits <= precision")
+    res.rule("R05.3b", "the set of shortcut conditions of the float comparison kernel is closed under exchanging lhs and rhs (necessary for cmp(a,b) == reverse(cmp(b,a)))")
     for P in programs:
         cfgname = P.name
         if "dashu_int" in P.units:
@@ -85,6 +86,7 @@ def run(res, programs, tier):
         if "dashu_float" in P.units:
             _r05_4(res, P, cfgname)
             _r05_6(res, P, cfgname)
+            _r05_3b(res, P, cfgname)
     # R05.5 = R04.1 (structural == / Hash of RBig rely on it), R05.1 relies on R17.2/R17.3
     from . import c04, c17
     res.rule("R04.1", "(shared with C04) every RBig(..) is built from a reduced Repr on all reaching definitions")
@@ -160,6 +162,57 @@ def _r05_1(res, P, cfgname):
         res.ok("R05.1", cfgname, key, sample=dict(function=fn["p"], shape="default arm: shrink_to_fit() dominates transmute (capacity within the compactness bound)"))
     else:
         res.fail("R05.1", cfgname, key, "Repr::from_buffer: the heap arm must call shrink_to_fit() before the transmute", span_loc(fn["sp"]))
+
+
+def _swap_term(t):
+    """mirror image of a term under lhs <-> rhs: arg1 <-> arg2, and the components of the
+    (lhs_prec, rhs_prec) tuple in arg3"""
+    if not isinstance(t, tuple):
+        return t
+    if t == ('arg', 1):
+        return ('arg', 2)
+    if t == ('arg', 2):
+        return ('arg', 1)
+    if t and t[0] == 'place' and t[1] == ('arg', 3):
+        projs = tuple({'.0': '.1', '.1': '.0'}.get(p, p) if i == len(t[2]) - 1 else p for i, p in enumerate(t[2]))
+        return ('place', t[1], projs)
+    return tuple(_swap_term(x) if isinstance(x, tuple) else x for x in t)
+
+
+def _r05_3b(res, P, cfgname):
+    from .c17b import norm_rel
+    fn = _find(P, "dashu_float::cmp::repr_cmp_same_base", "dashu_float")
+    if fn is None:
+        res.anchor("R05.3b", cfgname, "fn repr_cmp_same_base")
+        return
+    S = sym.Sym(fn)
+    conds = set()
+    for a, b, fact in S.edge_facts():
+        for c in guards.constraints(fact):
+            if c[0] == 'rel':
+                op, A, B = norm_rel(c[1], strip_bb(sym.strip_casts(c[2])), strip_bb(sym.strip_casts(c[3])))
+                conds.add((op, A, B))
+                # the negation is implied by the other edge of the same switch
+                neg = {'Lt': 'Le', 'Le': 'Lt', 'Eq': 'Ne', 'Ne': 'Eq'}[op]
+                conds.add((neg, B, A) if op in ('Lt', 'Le') else (neg, A, B))
+    n = 0
+    missing = []
+    for (op, A, B) in sorted(conds, key=repr):
+        txt = sym.term_str(A, 300) + sym.term_str(B, 300)
+        if "arg1" not in txt and "arg2" not in txt and "arg3" not in txt:
+            continue
+        n += 1
+        m = (op, _swap_term(A), _swap_term(B))
+        m2 = (op, m[2], m[1]) if op in ('Eq', 'Ne') else None
+        if m not in conds and (m2 is None or m2 not in conds):
+            missing.append("%s %s %s" % (sym.term_str(A, 80), op, sym.term_str(B, 80)))
+    key = "repr_cmp_same_base: conditions closed under lhs<->rhs"
+    if n < 6:
+        res.anchor("R05.3b", cfgname, "relational conditions in repr_cmp_same_base (found %d)" % n)
+    elif missing:
+        res.fail("R05.3b", cfgname, key, "float comparison is not mirror-symmetric: the shortcut condition `%s` has no counterpart with lhs and rhs exchanged, so cmp(a, b) and cmp(b, a) can disagree" % missing[0], span_loc(fn["sp"]))
+    else:
+        res.ok("R05.3b", cfgname, key, sample=dict(function=fn["p"], conditions=n))
 
 
 def _callees(fn):
